@@ -21,7 +21,10 @@ pub fn naive_memchr(needle: u8, haystack: &[u8]) -> Option<usize> {
     None
 }
 
+#[cfg(not(feature = "cap2"))]
 pub const CAP: usize = 4;
+#[cfg(feature = "cap2")]
+pub const CAP: usize = 2;
 /// Fixed inline slots (no realloc, no memmove: keeps CBMC's constant propagation alive) + overflow Vec for the few large maps.
 pub struct HashMap<K, V, S = ()> { slots: [Option<(K, V)>; CAP], extra: Vec<(K, V)>, n: usize, _s: PhantomData<S> }
 impl<K: Clone, V: Clone, S> Clone for HashMap<K, V, S> { fn clone(&self) -> Self { HashMap { slots: std::array::from_fn(|i| self.slots[i].clone()), extra: self.extra.clone(), n: self.n, _s: PhantomData } } }
